@@ -2031,12 +2031,65 @@ func genC15(r *rng, p *plan.Plan) {
 	if r.p(0.6) && p.Knobs.YieldDensity == 0 {
 		p.Knobs.YieldDensity = []float64{0.1, 0.3, 0.6}[r.intn(3)]
 	}
+	// twin subnets and a global limit: others exhaust the shared budget, the
+	// first twin asks meanwhile (and is refused for that reason alone); after a
+	// quiet second both twins ask the same listener the same questions at the
+	// same time - what the first one was refused before was never admitted, so
+	// it has cost it nothing and the two must fare alike
+	if us := udpServerOf(rp); us >= 0 && r.p(0.3) {
+		rp.Limiter.Global = []int{100, 200}[r.intn(2)]
+		rp.Limiter.Limit, rp.Limiter.Burst = r.rng(1, 2), []int{6, 10, 16}[r.intn(3)]
+		rp.Limiter.V4Mask, rp.Limiter.V6Mask = 0, 0
+		t0 := t + 3_000_000 // after everything else, the global bucket full again
+		// (many subnets, each within its own burst: whichever limiter is asked
+		// first, the shared budget is what runs out)
+		var hv []string
+		for k := 0; k < rp.Limiter.Global*3/rp.Limiter.Burst+1; k++ {
+			hv = append(hv, fmt.Sprintf("198.19.%d.1", 100+k))
+		}
+		for k := 0; k < rp.Limiter.Global*3; k++ {
+			add(hv[k%len(hv)], t0+int64(k)*r.i64(5, 20), us)
+		}
+		// (the twins' questions are answered by a reject rule: what a query
+		// costs then does not depend on how long an upstream takes)
+		rp.DomainSets = []plan.DomainSetSpec{{Tag: "twinset", Files: [][]string{{"domain:twin.test"}}}}
+		rp.Rules = append([]plan.RuleSpec{{Domain: "twinset", Reject: 3}}, rp.Rules...)
+		twin := func(src string, at int64) {
+			add(src, at, us)
+			op := &rp.Ops[len(rp.Ops)-1]
+			op.Labels = append([][]byte{[]byte(op.Token)}, labelsOf("twin.test")...)
+		}
+		// while the others are still at it: the shared budget is empty then
+		t1 := t0 + int64(rp.Limiter.Global)*20
+		for k := 0; k < rp.Limiter.Burst+r.rng(0, 4); k++ {
+			twin("198.19.77.7", t1+int64(k)*r.i64(20, 120))
+		}
+		t3 := t0 + int64(rp.Limiter.Global*3)*20 + 1_300_000
+		nq := r.rng(3, rp.Limiter.Burst)
+		for k := 0; k < nq; k++ {
+			at := t3 + int64(k)*r.i64(100, 400)
+			twin("198.19.77.7", at)
+			twin("198.19.88.8", at+1)
+		}
+		rp.Limiter.Twins = []plan.TwinSpec{{V1: "198.19.77.7", V2: "198.19.88.8", Phase3Us: t3}}
+		t = t3 + 1_000_000
+	}
 	// victims: a handful of queries, far inside their own budget
 	for n := r.rng(2, 6); n > 0; n-- {
 		si := r.intn(len(rp.Servers))
 		add(pickSrc(si, light4, light6), r.i64(20_000, t), si)
 	}
 	rp.HorizonUs = t + 8_000_000 + 12_000_000
+}
+
+// udpServerOf: a udp listener that IPv4 clients can reach (-1 if none).
+func udpServerOf(rp *plan.RouterPlan) int {
+	for i, s := range rp.Servers {
+		if s.Proto == "udp" && !strings.HasPrefix(s.Listen, "[::1]") && !s.MultiRoutes {
+			return i
+		}
+	}
+	return -1
 }
 
 // genLateDial: Close around the completion of a dial that ignores its context.
